@@ -41,3 +41,13 @@ Proof.
   pose proof (new_from_specs bytes_eqb bytes_ltb bytes_eqb_eq _ _ _ _ H) as Hs.
   split; [exact Hs|]. rewrite Hs. reflexivity.
 Qed.
+
+(* Ok: the graph's private indexes are coherent (name indexes in range, one adjacency row per node,
+   adjacency entries for every stored pair) *)
+Theorem read_events_ok_indexes : forall parse evs s g,
+  read_events parse evs s = Ok g -> NP bytes_eqb g.
+Proof.
+  intros parse evs s g. rewrite read_events_content.
+  destruct (doc_content parse evs) as [[[d ns] es]|]; [|discriminate].
+  apply (new_from_NP bytes_eqb bytes_ltb bytes_eqb_eq).
+Qed.
